@@ -201,6 +201,9 @@ func leanTypeM(t types.Type) (string, error) {
 	if lt, err := leanType(t); err == nil {
 		return lt, nil
 	}
+	if lt, ok := extLeanType(t); ok { // ext_k17k20.go
+		return lt, nil
+	}
 	switch u := t.Underlying().(type) {
 	case *types.Basic:
 		if u.Info()&types.IsString != 0 {
@@ -365,6 +368,9 @@ func (fc *fnCtx) lexpr(ex ast.Expr) (string, error) {
 		}
 		return intLitList(stringBytes(constant.StringVal(tv.Value))), nil
 	}
+	if s, handled, err := fc.extLexpr(ex); handled { // ext_k17k20.go
+		return s, err
+	}
 	switch x := ex.(type) {
 	case *ast.ParenExpr:
 		return fc.lexpr(x.X)
@@ -466,6 +472,9 @@ func assignedAnywhere(p *packages.Package, obj *types.Var) bool {
 // mexpr: expression forms that only exist in the monadic target.  handled=false: fall through to expr.
 func (fc *fnCtx) mexpr(ex ast.Expr) (string, bool, error) {
 	fail := func(f string, a ...interface{}) (string, bool, error) { return "", true, fmt.Errorf(f, a...) }
+	if s, handled, err := fc.extExpr(ex); handled { // ext_k17k20.go
+		return s, true, err
+	}
 	switch x := ex.(type) {
 	case *ast.SelectorExpr:
 		if key, lt, ok := fc.fieldKey(x); ok {
@@ -1174,6 +1183,9 @@ func (fc *fnCtx) mblock(stmts []ast.Stmt, lvl int) (string, error) {
 			return "", err
 		}
 		return prefix + r, nil
+	}
+	if text, handled, err := fc.extStmt(s, rest, lvl); handled { // ext_k17k20.go
+		return text, err
 	}
 	switch x := s.(type) {
 	case *scopeEnd:
@@ -2240,6 +2252,7 @@ func assignedIn3(stmts []ast.Stmt) (assigned, declared, whole map[string]bool) {
 					}
 				}
 			case *ast.CallExpr:
+				extAssignedByCall(x, assigned, whole) // ext_k17k20.go
 				if curFC != nil {
 					if recv, mi, ok := curFC.methodCallee(x); ok {
 						for _, f := range mi.outs {
@@ -2316,6 +2329,7 @@ func (fc *fnCtx) usedNames(nodes []ast.Node) map[string]bool {
 					fc.fieldsUsed[key] = lt
 				}
 			case *ast.CallExpr:
+				fc.extUsedByCall(x, used) // ext_k17k20.go
 				if recv, mi, ok := fc.methodCallee(x); ok {
 					for _, f := range mi.fields {
 						used[recv+"_"+f] = true
@@ -3179,6 +3193,7 @@ func genFuncM(p *packages.Package, e entry) (string, error) {
 				outs: outs, fuel: fc.m.fuelUsed}
 		}
 	}
+	extRegister(e, fd, fc, nres) // ext_k17k20.go
 	return fc.emit(e.pkg+"."+e.name, params, body), nil
 }
 
@@ -3216,6 +3231,15 @@ func genRegion(p *packages.Package, e entry) (string, error) {
 		return "", fmt.Errorf("function not found")
 	}
 	stmts := fd.Body.List
+	if is, handled, err := extRegionCond(e, fd, rng); handled { // ext_k17k20.go: `F@if:<k>>`
+		if err != nil {
+			return "", err
+		}
+		return extGenCond(p, e, fd, fname, rng, is)
+	}
+	d0, d1 := 0, 0
+	fl[0], d0 = extRegionOffsets(fl[0]) // ext_k17k20.go: `name+k`
+	fl[1], d1 = extRegionOffsets(fl[1])
 	first, last := -1, -1
 	for i, st := range stmts {
 		_, declared := assignedIn([]ast.Stmt{st})
@@ -3247,6 +3271,12 @@ func genRegion(p *packages.Package, e entry) (string, error) {
 		last = len(stmts) - 1
 		if _, ok := stmts[last].(*ast.ReturnStmt); !ok {
 			return "", fmt.Errorf("function does not end in a return")
+		}
+	}
+	if first >= 0 && last >= 0 && !toReturn {
+		first, last = first+d0, last+d1
+		if last >= len(stmts) {
+			return "", fmt.Errorf("region %s not found", rng)
 		}
 	}
 	if first < 0 || last < first {
@@ -3296,6 +3326,11 @@ func genRegion(p *packages.Package, e entry) (string, error) {
 		fc.declare(obj.Name(), lt)
 		fc.paramNames = append(fc.paramNames, obj.Name())
 	}
+	params = append(params, fc.extPrescanRegion(region, outs)...) // ext_k17k20.go
+	if regionFields[fc.m] {
+		curFC = fc
+		defer func() { curFC = nil }()
+	}
 	// result: the outs (types discovered after translation) -> translate with a synthetic return
 	ret := &ast.ReturnStmt{}
 	for _, o := range outs {
@@ -3319,6 +3354,9 @@ func genRegion(p *packages.Package, e entry) (string, error) {
 				}
 				return true
 			})
+		}
+		if l2, ok := fc.m.ltype[o]; ok && lt == "" { // ext_k17k20.go: a struct-field local / the `if:` condition
+			lt = l2
 		}
 		if lt == "" {
 			return "", fmt.Errorf("region output %s not found", o)
